@@ -3,6 +3,8 @@ CONSTANTS
   MaxTraits = 1
   MaxTAttrs = 2
   MaxMembers = 1
+  MaxVFields = 0
+  VFMenu = {}
   MaxMAttrs = 1
   DTs = {"struct", "enum"}
   Shapes = {"named", "tuple"}
